@@ -20,8 +20,9 @@ CLAIMED = {
         text="Theorem Spp.C02.framing_exact proves, for every list of well-formed packets with prefixes, every trim threshold, "
              "every source kind (bytes / file / socket) and every fragmentation into non-empty reads, that the Lean mirror of the "
              "ccsds_generator loop yields exactly the packets and stops; chunking_independent, source_independent and split_unique "
-             "are corollaries. The mirror is tied to the working tree by differential runs with scripted file/socket sources, the "
-             "trim literal substituted in the real code object, and a reference splitter as oracle.",
+             "are corollaries. The mirror is tied to the working tree by differential runs with scripted file / socket / pipe sources "
+             "and gzip-compressed files, the trim literal substituted in the real code object (where it still is one), the "
+             "headers-only framer with and without segment combining, and a reference splitter as oracle.",
         design="§7 C02", technique="Lean 4 proof (loop invariant, induction on the packet list) + correspondence check"),
     "C10": dict(
         text="`frame` is a total Lean function (well-founded on bytes still obtainable) — terminates_bound gives "
@@ -57,7 +58,8 @@ CLAIMED = {
         text="precedence / first_context / no_context (first context calibrator whose criteria hold, else default, else raw), "
              "calibrated_is_float (class float, raw kept), polynomial (= sum a_i x^n_i over Rat), spline_interior / spline_knot / "
              "spline_last_point / spline_extrapolate / spline_out_of_range (step and linear interpolation on the closed range of "
-             "strictly sorted points, extrapolation only when enabled, CalibrationError otherwise), enumerated, boolean. "
+             "strictly sorted points, extrapolation only when enabled, CalibrationError otherwise), spline_nan (a NaN raw value under "
+             "a spline is a CalibrationError), enumerated, boolean. "
              "Arithmetic is exact Rat; the correspondence runs in the exact-arithmetic regime with a Fraction-based reference.",
         design="§7 C08", technique="Lean 4 proof (list induction, grind over Rat) + correspondence check"),
     "C07": dict(
